@@ -4,7 +4,7 @@ use crate::engine::*;
 use crate::gen;
 use crate::keys;
 use crate::proto::*;
-use crate::rt::layer_parse;
+use crate::rt::parse_twice;
 use proptest::prelude::*;
 use serde::{Deserialize, Serialize};
 
@@ -117,11 +117,19 @@ impl Sub for FooterBinding {
     if fseg != want_seg {
       vio!("C05:footer-segment-shape:{}:{}", p.label(), s.layer.label(); "token for footer {:?} carries footer segment {:?}, expected {:?}", f, fseg, want_seg);
     }
-    let parse = |tok: &str, expect: &Option<String>| layer_parse(p, s.layer, &lk, tok, expect.as_deref(), s.assertion()).map(|o| o.message());
+    // every judged parse goes through a parser object that has just accepted the unedited token under F
+    // (parser state carried from one parse to the next must not change the outcome)
+    let a = s.assertion();
     match c.edit {
       SegEdit::Keep => {
         cl.nontrivial(norm(f) != norm(&f2));
-        let r = parse(&t, &f2);
+        let (ctl, r) = parse_twice(p, s.layer, (&t, &lk, f.as_deref(), a), (&t, &lk, f2.as_deref(), a));
+        match ctl {
+          Ok(o) if o.message().as_deref() == Some(s.msg.as_str()) => {}
+          Ok(o) => vio!("C05:wrong-message:{}:{}", p.label(), s.layer.label(); "accepted under its own footer but returned {:?} instead of {:?}", o.message(), s.msg),
+          Err(e) => vio!("C05:rejected-matching-footer:{}:{}:{}", p.label(), s.layer.label(), e.variant; "token built with footer {:?} rejected under the same expected footer: {}", f, e.text),
+        }
+        let r = r.map(|o| o.message());
         let should_accept = norm(f) == norm(&f2);
         match (should_accept, r) {
           (true, Ok(m)) if m.as_deref() == Some(s.msg.as_str()) => Verdict::Pass,
@@ -159,10 +167,14 @@ impl Sub for FooterBinding {
         }
         cl.nontrivial(true);
         for (who, expect) in [("original", f.clone()), ("edited", edited_value.clone())] {
-          match parse(&edited, &expect) {
+          let (ctl, r) = parse_twice(p, s.layer, (&t, &lk, f.as_deref(), a), (&edited, &lk, expect.as_deref(), a));
+          if ctl.is_err() {
+            return Verdict::Discard;
+          }
+          match r {
             Err(e) => cl.tag(format!("rejected:{}", e.variant)),
-            Ok(m) => vio!("C05:accepted-edited-footer-segment:{}:{}:{:?}:{}", p.label(), s.layer.label(), c.edit, who;
-              "footer segment edited ({:?}: {:?} -> {:?}) yet accepted under the {} footer {:?}, returned {:?}; token {}", c.edit, f, edited_value, who, expect, m, edited),
+            Ok(o) => vio!("C05:accepted-edited-footer-segment:{}:{}:{:?}:{}", p.label(), s.layer.label(), c.edit, who;
+              "footer segment edited ({:?}: {:?} -> {:?}) yet accepted under the {} footer {:?}, returned {:?}; token {}", c.edit, f, edited_value, who, expect, o.message(), edited),
           }
         }
         Verdict::Pass
